@@ -291,13 +291,35 @@ def run_case(run, spec):
                 run.violation("getall-modifies-leaf-labels", f"bulk reads changed the label storage of leaf {tag}: {_short(leaf.classes)} vs {_short(B.leaf_specs[tag]['classes'])}")
                 return
         run.count("getall_checked")
-        # slow path of getall(): an item without bulk accessor is loaded sample-wise
+        # slow path of getall(): an item without bulk accessor is loaded sample-wise. Inner layers are asked first (what class-aware
+        # wrappers and samplers do in their constructors with the dataset they receive), then the layers stacked on them
+        layers, cur = [], ds
+        while cur is not None and len(layers) < 12:
+            layers.append(cur)
+            cur = getattr(cur, "dataset", None) if "dataset" in getattr(cur, "__dict__", {}) else (cur.datasets[0] if "datasets" in getattr(cur, "__dict__", {}) and len(cur.datasets) else None)
+        for layer in reversed(layers[1:]):
+            def inner(layer=layer):
+                return gat.getall(layer, item="x"), [layer.getitem_x(i) for i in range(len(layer))]
+            ok, pair = call_real(run, inner, what="utils.getall(inner layer,'x')")
+            if not ok:
+                return
+            run.count("getall_inner_layers_checked")
+            if list(pair[0]) != pair[1]:
+                run.violation("getall-slowpath:inner-layer", f"utils.getall({type(layer).__name__} inside the stack,'x')={_short(pair[0])} differs from its per-sample tokens {_short(pair[1])}")
+                return
         ok, res = call_real(run, lambda: gat.getall(ds, item="x"), what="utils.getall(stack,'x')")
         if not ok:
             return
         if list(res) != [_expect_token(m) for m in model]:
-            run.violation("getall-slowpath", "utils.getall(stack,'x') differs from the per-sample tokens")
+            run.violation("getall-slowpath", f"utils.getall(stack,'x')={_short(res)} differs from the per-sample tokens {_short([_expect_token(m) for m in model])} (inner layers were asked before)")
             return
+        for fn in (gat.getall_as_list,):
+            ok, res = call_real(run, lambda: fn(ds, item="x"), what="utils.getall_as_list(stack,'x')")
+            if not ok:
+                return
+            if list(res) != [_expect_token(m) for m in model]:
+                run.violation("getall-slowpath", f"utils.{fn.__name__}(stack,'x') second read differs from the per-sample tokens")
+                return
 
     # ---- introspection on linear chains
     if chain is not None and not balanced:
